@@ -15,6 +15,8 @@ pub struct Unit {
     pub id: String,
     pub sym: Body,
     pub nat: Body,
+    /// the same harness at the newtype float W64 (same arithmetic as f64, different type)
+    pub alt: Body,
     pub path_cap: usize,
     /// C15/C08: a crate panic on a feasible path is itself the violation
     pub panic_is_violation: bool,
@@ -43,10 +45,12 @@ macro_rules! unit {
         let __id = $id.to_string();
         let __t1 = ($($arg.clone(),)*);
         let __t2 = __t1.clone();
+        let __t3 = __t1.clone();
         $crate::run::Unit { id: __id,
+            alt: { Box::new(move || $crate::run::CallWith::call_with(&__t3, $f::<$crate::w64::W64>)) },
             sym: { Box::new(move || $crate::run::CallWith::call_with(&__t1, $f::<$crate::sym::Sym>)) },
             nat: { Box::new(move || $crate::run::CallWith::call_with(&__t2, $f::<f64>)) },
-            path_cap: 20000, panic_is_violation: false, max_decisions: 600, budget_s: 300.0, branch_nl_timeout_ms: None, concolic: None }
+            path_cap: 20000, panic_is_violation: true, max_decisions: 600, budget_s: 300.0, branch_nl_timeout_ms: None, concolic: None }
     }};
 }
 
@@ -241,7 +245,7 @@ fn worker(units: &[Unit], sched: &(Mutex<Sched>, Condvar), cfg: &Config) {
             cur = Some(ui);
         }
         let deadline = { let g = sched.0.lock().unwrap(); g.t0[ui].map(|t| t + std::time::Duration::from_secs_f64(unit.budget_s)) };
-        let nf0 = sym::with(|c| c.n_lin_decided.get() + c.n_poly_decided.get());
+        let nf0 = sym::with(|c| c.n_lin_decided.get() + c.n_poly_decided.get() + c.n_rat_decided.get());
         let (q0, s0) = sym::with(|c| { c.deadline = deadline; c.begin_path(prefix.clone()); ((c.solver.queries, c.solver.n_sat, c.solver.n_unsat, c.solver.n_unknown, c.solver.n_nl), c.solver.secs) });
         let end = run_body(&unit.sym);
         // a crate panic on a feasible path
@@ -269,7 +273,7 @@ fn worker(units: &[Unit], sched: &(Mutex<Sched>, Condvar), cfg: &Config) {
                     let known = cfg.known.iter().find(|k| k.property == cfg.property && unit.id.starts_with(&k.unit_prefix) && v.label.starts_with(&k.label_prefix)).map(|k| k.what.clone());
                     findings.push(Finding { unit: unit.id.clone(), v: v.clone(), replay: rp, replay_file: String::new(), known });
                 } else {
-                    unconfirmed.push(format!("{}: solver model did not reproduce exactly ({}); model={:?}", v.label, rp.exact_detail, v.model.iter().map(|(k, x)| format!("{}={}", k, x)).collect::<Vec<_>>()));
+                    unconfirmed.push(format!("{}: solver model did not reproduce exactly ({}); model={:?} raw={} detail={}", v.label, rp.exact_detail, v.model.iter().map(|(k, x)| format!("{}={}", k, x)).collect::<Vec<_>>(), v.model_raw.chars().take(300).collect::<String>(), v.detail.chars().take(300).collect::<String>()));
                 }
             }
         }
@@ -292,7 +296,7 @@ fn worker(units: &[Unit], sched: &(Mutex<Sched>, Condvar), cfg: &Config) {
             if sym::with(|c| std::mem::take(&mut c.concretised)) { r.capped = true; }
             let cc = sym::with(|c| std::mem::take(&mut c.crosscheck));
             r.cc_asked += cc.0; r.cc_agreed += cc.1; r.cc_noanswer += cc.2; r.cc_disagree.extend(cc.3);
-            r.normal_form_decisions += sym::with(|c| c.n_lin_decided.get() + c.n_poly_decided.get()) - nf0;
+            r.normal_form_decisions += sym::with(|c| c.n_lin_decided.get() + c.n_poly_decided.get() + c.n_rat_decided.get()) - nf0;
             for i in stats.inconclusive { if r.inconclusive.len() < 16 { r.inconclusive.push(i) } }
             for e in stats.events { if r.events.len() < 6 && !r.events.contains(&e) { r.events.push(e) } }
             for u in unconfirmed { if r.unconfirmed.len() < 8 { r.unconfirmed.push(u) } }
@@ -322,6 +326,22 @@ fn worker(units: &[Unit], sched: &(Mutex<Sched>, Condvar), cfg: &Config) {
     }
 }
 
+/// Native sample run: the unit's harness at f64 on pseudo-random inputs (a coarse grid, so ties occur), obligations evaluated with a
+/// loose 1e-4 tolerance. Not a decision procedure — a guard that the compiled f64 instantiation (this build profile) follows the
+/// generic code the solver reasoned about; a robust failure is a concrete witness against the real code.
+pub fn native_sample(unit: &Unit, seed: u64, alt: bool) -> Option<(Vec<(String, String)>, Vec<(String, f64)>)> {
+    NATIVE.with(|n| { let mut n = n.borrow_mut(); *n = NativeCtx::default(); n.sample_seed = Some(seed); n.tol = 1e-4; });
+    let end = run_body(if alt { &unit.alt } else { &unit.nat });
+    NATIVE.with(|n| {
+        let n = n.borrow();
+        if !n.assumption_failed.is_empty() { return None; } // the sample is outside the harness's input domain
+        let mut failed: Vec<(String, String)> = n.failed.clone();
+        if let PathEnd::Panic(m) = &end { // the label is the panic *site*: the message may format the scalar (`left: 0.0` vs `left: W64(0.0)`)
+            let site = m.rfind(" at ").map(|i| &m[i..]).unwrap_or("");
+            failed.push((format!("panic{}", site), format!("panics: {}", m))); }
+        Some((failed, n.used.clone()))
+    })
+}
 /// run a single unit natively on given inputs (used by `replay <file>` and by the self-test)
 pub fn run_native(unit: &Unit, inputs: &HashMap<String, f64>) -> (Vec<(String, String)>, Option<String>, u64) {
     NATIVE.with(|n| { let mut n = n.borrow_mut(); *n = NativeCtx::default(); n.inputs = inputs.clone(); });
